@@ -37,7 +37,7 @@ REGISTRY = {
     'technique': 'Lean 4 proof about a regenerated effect model + dynamic snapshot/alias/history checks',
 }
 
-WRAPS = {'create_multi_annotation'}   # aggregate constructors: the result is documented to hold the arguments
+WRAPS = {'create_multi_annotation', 'merge_dicts'}   # declaredSharing besides the accessor (Model/EffectsApi.lean): see there
 
 
 def _pool_map(fn, args, procs):
@@ -149,6 +149,7 @@ def run(chk):
     rng0 = D.rng_stamp()
     res = _pool_map(D.task_single, list(range(len(st.bases))), procs)
     observed = {}
+    st.shares = [r['shares'] for r in res]
     for si, r in enumerate(res):
         st.writes[si] = r['writes']
         for api, ps in r['observed'].items():
@@ -195,6 +196,7 @@ def run(chk):
 def _parse_verdict(r):
     parts = dict(p.split('=', 1) for p in r.split('|'))
     return {'writes': [x for x in parts['writes'].split(',') if x], 'globals': [x for x in parts['globals'].split(',') if x],
+            'share': [x for x in parts['share'].split(',') if x], 'shareglobals': [x for x in parts['shareglobals'].split(',') if x],
             'editor': parts['editor'] == '1', 'random': parts['random'] == '1', 'closed': parts['closed'] == '1',
             'recheck': parts['recheck']}
 
@@ -207,12 +209,13 @@ def _static_compare(chk, st, observed, info):
     for n in names:
         variants.append(n)
         variants.append(n + '[inplace]')
-    replies = chk.driver(DRV, ['verdict\t' + n for n in variants] + ['outside', 'count'])
+    replies = chk.driver(DRV, ['verdict\t' + n for n in variants] + ['sharing', 'outside', 'count'])
+    lean_sharing = set(x for x in replies[-3].split(',') if x)
     lean_outside = set(x for x in replies[-2].split(',') if x)
     nfun = replies[-1]
     chk.count('analysed_functions', int(nfun) if nfun.isdigit() else 0)
     verdict = {}
-    for n, r in zip(variants, replies[:-2]):
+    for n, r in zip(variants, replies[:-3]):
         if r not in ('unknown', 'bad-op'):
             verdict[n] = _parse_verdict(r)
     chk.samples.append({'driver': 'verdict', 'mass': replies[variants.index('mass')],
@@ -224,6 +227,9 @@ def _static_compare(chk, st, observed, info):
         if n == '<outside-lists>':
             if lean_outside != set(D.DECLARED_OUTSIDE):
                 return f'declaredOutside differs: Lean {sorted(lean_outside)} vs harness {sorted(D.DECLARED_OUTSIDE)}'
+            hs = set(WRAPS) | {s.api for s in st.specs if s.accessor and s.api not in WRAPS}
+            if lean_sharing != hs:
+                return f'declaredSharing differs: Lean {sorted(lean_sharing)} vs harness {sorted(hs)}'
             return None
         if n not in verdict:
             return f'API member {n} has no analysed program (translator did not find its definition)'
@@ -261,6 +267,35 @@ def _static_compare(chk, st, observed, info):
         return ob <= fl
     chk.correspond('observed_writes_subset_of_flagged', DRV, [n for n in cases if n.replace('[inplace]', '') not in D.DECLARED_OUTSIDE],
                    line_of, impl, compare=cmp_, nontrivial_fn=lambda c, im: bool(im))
+    # (3) the same for sharing: whatever the edit-the-result step saw shared must be flagged by mayShare
+    share_by_variant = {}
+    for spec in st.specs:
+        key = spec.api + ('[inplace]' if 'inplace' in spec.name else '')
+        for si in range(len(st.bases)):
+            for k in st.shares[si].get(spec.name, ()):
+                share_by_variant.setdefault(key, set()).add(spec.params.get(k, '?' + k))
+
+    def impl_share(n):
+        return ','.join(sorted(p for p in share_by_variant.get(n, ()) if not p.startswith('?')))
+
+    def cmp_share(im, reply):
+        if reply in ('unknown', 'bad-op'):
+            return False
+        fl = set(_parse_verdict(reply)['share'])
+        return {x for x in im.split(',') if x} <= fl
+    chk.correspond('observed_sharing_subset_of_flagged', DRV,
+                   [n for n in sorted(set(share_by_variant) | {m for m in verdict if m in names})
+                    if n.replace('[inplace]', '') not in D.DECLARED_OUTSIDE],
+                   line_of, impl_share, compare=cmp_share, nontrivial_fn=lambda c, im: bool(im))
+    chk.notes.append('observed result/argument sharing per API variant (edit-the-result step): ' +
+                     json.dumps({k: sorted(v) for k, v in share_by_variant.items()}))
+    chk.notes.append('flagged as possibly sharing by the analysis: ' + json.dumps(
+        {n: v['share'] + v['shareglobals'] for n, v in verdict.items() if v['share'] or v['shareglobals']}))
+    r_flagged = {n: v for n, v in verdict.items() if not v['editor'] and (v['share'] or v['shareglobals'])
+                 and n.replace('[inplace]', '') not in D.DECLARED_OUTSIDE and n not in lean_sharing}
+    if r_flagged:
+        chk.lean_problems.append('the analysis flags results as possibly sharing state with arguments / globals '
+                                 '(generated_results_fresh): ' + json.dumps({n: v['share'] + v['shareglobals'] for n, v in r_flagged.items()})[:1500])
     # observed global disturbance must be flagged too (the dynamic clause itself already fails for non-random specs)
     imprecise = {}
     for n, v in verdict.items():
